@@ -1,6 +1,7 @@
 SPECIFICATION TraceSpec
 CONSTANTS QCap = 10 MaxPend = 100000 MaxOps = 1000000
           NoInboundFilter = FALSE NoNullCheck = FALSE AnyoneOpens = FALSE RepIds = {}
+          TrackHistory = TRUE FlowCache = "none" HostIps = {} HostPorts = {} SrcSet = {} DkSet = {}
 INVARIANT TraceAccepted
 INVARIANT TypeOK
 INVARIANT EmitOnlyAllowed
